@@ -114,6 +114,22 @@ CLAIMS = {
   "identity test, as the property's quantifier says), not by a theorem.",
   "Trusted additionally: tools/rustexpr.py parser of the Rust subset. Non-vanishing is a randomised test. Dynamic layout: shipped instance only.",
   "Lean 4 reflective proof over programs regenerated from source by a translator + evaluation agreement", "7/C16"),
+
+ 'C07': ("proof",
+  "Lean theorems (Props/C07.lean) for an arbitrary hash instance: Fri.verify = Ok <-> an explicit accepting trace (every per-layer "
+  "compute_next_layer and table decommitment, then the last-layer check); a last layer of length != 2^bound is rejected; per layer, "
+  "acceptance against a COMMITTED table's root implies every coset row the verifier folded (queried values and sibling leaves) is the "
+  "committed row and the consumed authentication nodes are the committed path, or an explicit hash collision is produced; wrong cell / "
+  "query value / auth node / commitment are rejected (or collision); sortedness and ranges propagate through all layers; changing the FRI "
+  "evaluation point changes a 2-fold unless x_inv = 0 or the odd part vanishes (exception found by the proof), and 2^k points agreeing "
+  "force P_j = 0; two different last layers accepted on the same queries agree on all query points, impossible with >= 2^bound distinct "
+  "points; fold_degree: a polynomial of degree >= bound keeps degree >= d after folding for all but at most 2^k - 1 challenges. "
+  "Tied to the code by every single-position corruption (value, sibling leaf, auth node, commitment, last-layer coefficient, lengths) "
+  "of honest instances from the Lean prover and by honestly folded high-degree inputs: real fri_commit+fri_verify vs model vs oracle.",
+  "NOT proved (stated in an UNPROVED block and DESIGN section 10): the probabilistic claim (rejection probability decaying "
+  "exponentially in the number of queries; dishonest folding / proximity gaps; random-oracle step). The harness runs one instance per "
+  "high-degree input and does not measure the decay.",
+  "Lean 4 machine-checked proof (collision-extraction, partial on the probabilistic clause) + correspondence check", "7/C07"),
 }
 
 ORDER = [f'C{i:02d}' for i in range(1, 20)]
